@@ -12,6 +12,7 @@ PROPS = {
     "C01": {"units": ["streams"]},
     "C02": {"units": ["range"]},
     "C03": {"units": ["range"]},
+    "C04": {"units": ["cond"]},
     "C06": {"units": ["streams"]},
     "C07": {"units": ["streams"]},
     "C08": {"units": ["chunker"]},
